@@ -1,3 +1,278 @@
-import RlibModel.Model.Common
-/-! Line-protocol driver for engine `segtree` (stub: to be written by the engine's author). -/
-def main : IO Unit := pure ()
+import RlibModel.Model.SegtreeItems
+/-!
+Line-protocol driver for engine `segtree` (properties C01, C02).
+
+Case line:  `<item> <ctor> <n> <v…> ; op ; op ; …`
+  item  min | max | sum | minadd | maxadd | sumadd | mm | smm | aff | str
+        (mm = Combinator<MinAdd,MaxAdd>, smm = Combinator<Combinator<SumAdd,MinAdd>,MaxAdd>)
+  ctor  new (one value) | slice | iter (n values)
+  op    set i v | mod l r <modifier> | ask l r | lb l <pred> | lbr r <pred> | dbg
+Answer: constructor result and one answer per op, joined by ` ; `:
+  raw   `{:?}` of the returned item / `some i`|`none` + the probe log / the `debug()` string
+  view  observable value / answer + `P` (every probe is the aggregate of a range starting at `l`) or `nm`
+        when the predicate is not monotone on the current contents (outside C02's domain)
+  spec  the plain-list specification's answer in the format of the view
+-/
+open Rlib Rlib.Segtree
+
+structure ItemIO (T M A : Type) where
+  item : Item T M A
+  parseVal : String → Option T
+  parseMod : List String → Option M
+  parsePred : List String → Option (A → Bool)
+  dbg : T → String
+  showA : A → String
+
+section generic
+variable {T M A : Type} (io : ItemIO T M A)
+
+def showIdx (o : Option Nat) : String := showOpt toString o
+
+def dbgList (xs : List T) : String := "[" ++ ", ".intercalate (xs.map io.dbg) ++ "]"
+
+/-- `(raw, view, spec, new model state, new spec state)`; `none` = malformed / outside the protocol -/
+def stepOp (s : Seg T) (xs : List T) (toks : List String) : Option (String × String × String × Seg T × List T) :=
+  let I := io.item
+  match toks with
+  | ["set", i, v] =>
+    match parseNat? i, io.parseVal v with
+    | some i, some v =>
+      let sp := match Spec.set xs i v with
+        | .ok xs' => (".", xs')
+        | .error e => (e.toString, xs)
+      match s.set I i v with
+      | .ok s' => some (".", ".", sp.1, s', sp.2)
+      | .error e => some (e.toString, e.toString, sp.1, s, sp.2)
+    | _, _ => none
+  | "mod" :: l :: r :: mt =>
+    match parseNat? l, parseNat? r, io.parseMod mt with
+    | some l, some r, some m =>
+      let sp := match Spec.modify I xs l r m with
+        | .ok xs' => (".", xs')
+        | .error e => (e.toString, xs)
+      match s.modify I l r m with
+      | .ok s' => some (".", ".", sp.1, s', sp.2)
+      | .error e => some (e.toString, e.toString, sp.1, s, sp.2)
+    | _, _, _ => none
+  | ["ask", l, r] =>
+    match parseNat? l, parseNat? r with
+    | some l, some r =>
+      let sp := match Spec.ask I xs l r with
+        | .ok a => io.showA a
+        | .error e => e.toString
+      match s.ask I l r with
+      | .ok (x, s') => some (io.dbg x, io.showA (I.val x), sp, s', xs)
+      | .error e => some (e.toString, e.toString, sp, s, xs)
+    | _, _ => none
+  | "lb" :: l :: pt =>
+    match parseNat? l, io.parsePred pt with
+    | some l, some g =>
+      if l < s.n then
+        let f := fun x => g (I.val x)
+        let q := s.lowerBound I l f
+        let raw := showIdx q.1 ++ " " ++ dbgList io (q.2.1.map (·.2))
+        if Spec.monoFwd I xs l f then
+          let pOk := q.2.1.all fun kp => io.showA (I.val kp.2) == io.showA (I.val (Spec.aggFwd I xs l kp.1))
+          some (raw, showIdx q.1 ++ (if pOk then " P" else " p!"), showIdx (Spec.first I xs l f) ++ " P", q.2.2, xs)
+        else some (raw, "nm", "nm", q.2.2, xs)
+      else none
+    | _, _ => none
+  | "lbr" :: r :: pt =>
+    match parseNat? r, io.parsePred pt with
+    | some r, some g =>
+      if r < s.n then
+        let f := fun x => g (I.val x)
+        let q := s.lowerBoundRev I r f
+        let raw := showIdx q.1 ++ " " ++ dbgList io (q.2.1.map (·.2))
+        if Spec.monoBwd I xs r f then
+          let pOk := q.2.1.all fun kp => io.showA (I.val kp.2) == io.showA (I.val (Spec.aggBwd I xs kp.1 r))
+          some (raw, showIdx q.1 ++ (if pOk then " P" else " p!"), showIdx (Spec.last I xs r f) ++ " P", q.2.2, xs)
+        else some (raw, "nm", "nm", q.2.2, xs)
+      else none
+    | _, _ => none
+  | ["dbg"] =>
+    let q := s.debug I
+    -- the harness obtains the observable values by a second round of single-element asks; so does the model
+    let q2 := q.2.debug I
+    some (dbgList io q.1, showListWith io.showA (q2.1.map I.val), showListWith io.showA (xs.map I.val), q2.2, xs)
+  | _ => none
+
+def runOps (s : Seg T) (xs : List T) : List String → List String → List String → List String →
+    Option (List String × List String × List String)
+  | [], rs, vs, ss => some (rs.reverse, vs.reverse, ss.reverse)
+  | o :: os, rs, vs, ss =>
+    match stepOp io s xs (tokens o) with
+    | none => none
+    | some (r, v, sp, s', xs') => runOps s' xs' os (r :: rs) (v :: vs) (sp :: ss)
+
+def invalid : String := answer3 "INVALID" "INVALID" "any"
+
+def runCase (ctor : String) (vals : List String) (n : Nat) (ops : List String) : String :=
+  let I := io.item
+  match vals.mapM io.parseVal with
+  | none => invalid
+  | some vs =>
+    let built : Option (Except Panic (Seg T) × List T) :=
+      match ctor, vs with
+      | "new", [v] => some (Seg.new I n v, List.replicate n v)
+      | "slice", vs => if vs.length = n then some (Seg.fromSlice I vs, vs) else none
+      | "iter", vs => if vs.length = n then some (Seg.fromIter I vs, vs) else none
+      | _, _ => none
+    match built with
+    | none => invalid
+    | some (.error e, _) =>
+      -- the constructors are specified on n ≥ 1 only (and never fail there); the model mirrors the panic of the code
+      answer3 e.toString e.toString "any"
+    | some (.ok s, xs) =>
+      match runOps io s xs ops ["ok"] ["ok"] ["ok"] with
+      | none => invalid
+      | some (rs, vs, ss) => answer3 (" ; ".intercalate rs) (" ; ".intercalate vs) (" ; ".intercalate ss)
+
+end generic
+
+/-! ### the items of the harness -/
+
+def parseWord (s : String) : Option (List Nat) :=
+  if s.isEmpty then none else
+  s.toList.mapM fun c => if 'a' ≤ c ∧ c ≤ 'z' then some (c.toNat - 97) else none
+
+def showWord (s : List Nat) : String := "\"" ++ letters s ++ "\""
+
+def intPair : List String → Option (Int × Int)
+  | [a, b] => match parseInt? a, parseInt? b with
+    | some a, some b => some (a, b)
+    | _, _ => none
+  | _ => none
+
+def natPair : List String → Option (Nat × Nat)
+  | [a, b] => match parseNat? a, parseNat? b with
+    | some a, some b => some (a, b)
+    | _, _ => none
+  | _ => none
+
+def unitMod : List String → Option Unit
+  | ["u"] => some ()
+  | _ => none
+
+def intMod : List String → Option Int
+  | [m] => parseInt? m
+  | _ => none
+
+def predConst {A : Type} : List String → Option (A → Bool)
+  | ["T"] => some fun _ => true
+  | ["F"] => some fun _ => false
+  | _ => none
+
+def predMin : List String → Option (Int → Bool)
+  | ["lt", c] => (parseInt? c).map fun c a => decide (a < c)
+  | ts => predConst ts
+
+def predMax : List String → Option (Int → Bool)
+  | ["gt", c] => (parseInt? c).map fun c a => decide (a > c)
+  | ts => predConst ts
+
+def predSum : List String → Option (Int → Bool)
+  | ["ge", c] => (parseInt? c).map fun c a => decide (a ≥ c)
+  | ts => predConst ts
+
+def predSumAdd : List String → Option (Int × Int → Bool)
+  | ["ge", c] => (parseInt? c).map fun c a => decide (a.1 ≥ c)
+  | ["len", c] => (parseInt? c).map fun c a => decide (a.2 ≥ c)
+  | ts => predConst ts
+
+def predMM : List String → Option (Int × Int → Bool)
+  | ["lt", c] => (parseInt? c).map fun c a => decide (a.1 < c)
+  | ["gt", c] => (parseInt? c).map fun c a => decide (a.2 > c)
+  | ["spread", c] => (parseInt? c).map fun c a => decide (a.2 - a.1 ≥ c)
+  | ts => predConst ts
+
+def predSMM : List String → Option (((Int × Int) × Int) × Int → Bool)
+  | ["ge", c] => (parseInt? c).map fun c a => decide (a.1.1.1 ≥ c)
+  | ["len", c] => (parseInt? c).map fun c a => decide (a.1.1.2 ≥ c)
+  | ["lt", c] => (parseInt? c).map fun c a => decide (a.1.2 < c)
+  | ["gt", c] => (parseInt? c).map fun c a => decide (a.2 > c)
+  | ts => predConst ts
+
+/-- `(hash, B^k)` of every prefix of `w` (the empty one included) -/
+def affPrefixes (w : List Int) : List (Int × Int) :=
+  let step := fun (acc : (Int × Int) × List (Int × Int)) (x : Int) =>
+    let h := (acc.1.1 * hashB + x % hashP) % hashP
+    let pw := (acc.1.2 * hashB) % hashP
+    ((h, pw), (h, pw) :: acc.2)
+  (w.foldl step ((0, 1), [(0, 1)])).2
+
+/-- `(hash, B^k)` of every suffix of `w` (the empty one included) -/
+def affSuffixes (w : List Int) : List (Int × Int) :=
+  let step := fun (x : Int) (acc : (Int × Int) × List (Int × Int)) =>
+    let h := (x % hashP * acc.1.2 + acc.1.1) % hashP
+    let pw := (acc.1.2 * hashB) % hashP
+    ((h, pw), (h, pw) :: acc.2)
+  (w.foldr step ((0, 1), [(0, 1)])).2
+
+def predAff : List String → Option (Int × Int × Int → Bool)
+  | ["npre", w] => (parseIntsComma? w).map fun w =>
+      let ps := affPrefixes w
+      fun a => !(ps.any fun p => p.1 == a.1 && p.2 == a.2.1)
+  | ["nsuf", w] => (parseIntsComma? w).map fun w =>
+      let ps := affSuffixes w
+      fun a => !(ps.any fun p => p.1 == a.1 && p.2 == a.2.1)
+  | ts => predConst ts
+
+def predStr : List String → Option (List Nat → Bool)
+  | ["npre", w] => (parseWord w).map fun w a => !(a.isPrefixOf w)
+  | ["nsuf", w] => (parseWord w).map fun w a => !(a.isSuffixOf w)
+  | ["slen", c] => (parseNat? c).map fun c a => decide (a.length ≥ c)
+  | ts => predConst ts
+
+def showPairI (a : Int × Int) : String := s!"({a.1},{a.2})"
+
+def ioMin : ItemIO MinI Unit Int :=
+  ⟨minItem, fun s => (parseInt? s).map MinI.mk, unitMod, predMin, MinI.dbg, toString⟩
+def ioMax : ItemIO MaxI Unit Int :=
+  ⟨maxItem, fun s => (parseInt? s).map MaxI.mk, unitMod, predMax, MaxI.dbg, toString⟩
+def ioSum : ItemIO SumI Unit Int :=
+  ⟨sumItem, fun s => (parseInt? s).map SumI.mk, unitMod, predSum, SumI.dbg, toString⟩
+def ioMinAdd : ItemIO MinAdd Int Int :=
+  ⟨minAddItem, fun s => (parseInt? s).map fun v => ⟨v, 0⟩, intMod, predMin, MinAdd.dbg, toString⟩
+def ioMaxAdd : ItemIO MaxAdd Int Int :=
+  ⟨maxAddItem, fun s => (parseInt? s).map fun v => ⟨v, 0⟩, intMod, predMax, MaxAdd.dbg, toString⟩
+def ioSumAdd : ItemIO SumAdd Int (Int × Int) :=
+  ⟨sumAddItem, fun s => (parseInt? s).map fun v => ⟨v, 1, 0⟩, intMod, predSumAdd, SumAdd.dbg, showPairI⟩
+def ioMM : ItemIO (MinAdd × MaxAdd) Int (Int × Int) :=
+  ⟨prodItem minAddItem maxAddItem, fun s => (parseInt? s).map fun v => (⟨v, 0⟩, ⟨v, 0⟩), intMod, predMM,
+   combDbg MinAdd.dbg MaxAdd.dbg, showPairI⟩
+def ioSMM : ItemIO ((SumAdd × MinAdd) × MaxAdd) Int (((Int × Int) × Int) × Int) :=
+  ⟨prodItem (prodItem sumAddItem minAddItem) maxAddItem,
+   fun s => (parseInt? s).map fun v => ((⟨v, 1, 0⟩, ⟨v, 0⟩), ⟨v, 0⟩), intMod, predSMM,
+   combDbg (combDbg SumAdd.dbg MinAdd.dbg) MaxAdd.dbg,
+   fun a => s!"(({showPairI a.1.1},{a.1.2}),{a.2})"⟩
+def ioAff : ItemIO AffHash (Int × Int) (Int × Int × Int) :=
+  ⟨affHashItem, fun s => (parseInt? s).map affLeaf, intPair, predAff, AffHash.dbg,
+   fun a => s!"({a.1},{a.2.1},{a.2.2})"⟩
+def ioStr : ItemIO StrCat (Nat × Nat) (List Nat) :=
+  ⟨strCatItem, fun s => (parseWord s).map fun w => ⟨w, none⟩, natPair, predStr, StrCat.dbg, showWord⟩
+
+def handle (line : String) : String :=
+  match splitOps line with
+  | [] => badLine line
+  | hdr :: ops =>
+    match tokens hdr with
+    | item :: ctor :: n :: vals =>
+      match parseNat? n with
+      | none => badLine line
+      | some n =>
+        match item with
+        | "min" => runCase ioMin ctor vals n ops
+        | "max" => runCase ioMax ctor vals n ops
+        | "sum" => runCase ioSum ctor vals n ops
+        | "minadd" => runCase ioMinAdd ctor vals n ops
+        | "maxadd" => runCase ioMaxAdd ctor vals n ops
+        | "sumadd" => runCase ioSumAdd ctor vals n ops
+        | "mm" => runCase ioMM ctor vals n ops
+        | "smm" => runCase ioSMM ctor vals n ops
+        | "aff" => runCase ioAff ctor vals n ops
+        | "str" => runCase ioStr ctor vals n ops
+        | _ => badLine line
+    | _ => badLine line
+
+def main : IO Unit := driverMain handle
